@@ -44,6 +44,8 @@ var c18tpls = []c18tpl{
 	{src: "type T struct {\n\tn int\n}", gives: []string{"T"}},
 	{src: "func (t *T) M() int {\n\treturn t.n + 1\n}", needs: []string{"T"}, gives: []string{"M"}},
 	{src: `t := &T{n: 6}`, needs: []string{"T"}, gives: []string{"t"}},
+	// a method whose body declares a local type named like a package variable (what follows the method must still see the variable)
+	{src: "func (t *T) L() int {\n\ttype x struct {\n\t\tq int\n\t}\n\tw := &x{q: 2}\n\treturn w.q\n}", needs: []string{"T"}, gives: []string{"L"}},
 	{src: `fmt.Println(x, y)`, needs: []string{"fmt", "x", "y"}},
 	{src: `x = f(x)`, needs: []string{"f", "x"}},
 	{src: `s := []int{1, 2}`, gives: []string{"s"}},
@@ -244,12 +246,49 @@ func c18run(r *report.Run) {
 			r.Sample(map[string]any{"program": strings.Join(c18chunks(seq, 0), ""), "chunkings": 1 << (len(seq) - 1), "observation": whole.String()})
 		}
 	})
+	c18many(r)
 	if r.Expired() {
 		r.NotExhaustive("internal deadline reached")
 	}
 }
 
+// c18many: programs of N identical top-level loops (block-scoped slots of a compile unit add up: the whole program
+// uses N times the slots of one statement, a chunk only its own), N at and across 42/43 (128 slots) and 85/86 (256),
+// evaluated at once, one statement per Eval, and in two halves.
+func c18many(r *report.Run) {
+	for _, n := range []int{1, 2, 41, 42, 43, 44, 45, 64, 84, 85, 86, 87, 128, 200} {
+		for _, loop := range []string{"for _, v := range s {\n\tt += v\n}", "for k, v := range s {\n\tt += k + v\n}", "for i := 0; i < 2; i++ {\n\tw := i + 1\n\tt += w\n}"} {
+			stmts := []string{"s := []int{1, 2, 3}", "t := 0"}
+			for i := 0; i < n; i++ {
+				stmts = append(stmts, loop)
+			}
+			stmts = append(stmts, "t")
+			join := func(ss []string) string { return strings.Join(ss, "\n") + "\n" }
+			whole := c18eval([]string{join(stmts)})
+			var single []string
+			for _, st := range stmts {
+				single = append(single, st+"\n")
+			}
+			half := len(stmts) / 2
+			for name, chunks := range map[string][]string{"one statement per Eval": single, "two halves": {join(stmts[:half]), join(stmts[half:])}} {
+				got := c18eval(chunks)
+				r.Eval(1)
+				key := fmt.Sprintf("%d copies of the top-level loop %q, %s", n, loop, name)
+				r.Nontrivial(key)
+				if whole.status != "ok" || got != whole {
+					r.Fail(&report.Case{Kind: "many", Key: key, Want: "whole program: " + whole.String(), Got: got.String()})
+				}
+			}
+		}
+	}
+}
+
 func c18rerun(c *report.Case) (bool, string) {
+	if c.Kind == "many" {
+		rr := report.New("C18", "quick")
+		c18many(rr)
+		return rr.Violations() > 0, fmt.Sprintf("%d failing cases in the many-loops family", rr.Violations())
+	}
 	var in c18case
 	if !remarshal(c.Input, &in) {
 		return false, "bad input"
